@@ -1,5 +1,7 @@
 """C30 Unary-node detection is exact."""
 
+import itertools
+
 import numpy as np
 import tskit
 
@@ -40,11 +42,16 @@ def cases(tier, seed):
                 inner = inner[:1] + inner[-1:] if len(inner) > 1 else inner
             for u in inner:
                 out.append({"arg": a, "simplify": simp, "H": [u]})
+            if simp and a["L"] > 1:
+                # missing data WITHOUT re-simplifying: isolating sample s over locus l leaves its former parent
+                # with one child there (a node that turns unary purely by an edge removal / insertion at a flank)
+                for s_, l_ in itertools.product(range(a["n"]), range(a["L"])):
+                    out.append({"arg": a, "simplify": True, "H": None, "K": [s_, l_]})
     return {
         "cases": out,
         "states": st,
         "transitions": tr,
-        "bound": "unsimplified and simplified terminals of U(n,L,R) for " + ",".join(map(str, specs)) + " x every single internal node flagged as sample x 2 mutation patterns x 3 methods + 3 detectors",
+        "bound": "unsimplified and simplified terminals of U(n,L,R) for " + ",".join(map(str, specs)) + " x every single internal node flagged as sample x every (sample, locus) isolated without re-simplification x 2 mutation patterns x 3 methods + 3 detectors",
         "exhaustive": True,
     }
 
@@ -66,12 +73,14 @@ def run(case):
     from tsdate import prior, util
 
     ts = tsspace.arg_ts(case["arg"], simplify=case["simplify"])
+    if case.get("K"):
+        ts = tsspace.isolate_sample(ts, case["K"][0], [case["K"][1]], simplify=False)
     if case["H"]:
         ts = tsspace.flag_internal_samples(ts, case["H"])
     viol, tags, keys = [], {}, []
     evals = 0
     any_unary, ns_unary = reference(ts)
-    cid = f"{case['arg']['id']}|{case['simplify']}|{case['H']}"
+    cid = f"{case['arg']['id']}|{case['simplify']}|{case['H']}|{case.get('K')}"
     tags["inputs_with_unary" if any_unary else "inputs_without_unary"] = 1
     if any_unary and not ns_unary:
         tags["inputs_with_only_sample_unary"] = 1
